@@ -161,8 +161,10 @@ let handle = function
     res (v3_new (bytes_of_hex eid) (bytes_of_hex user) (z_of_string aalg) (bytes_of_hex akey) (z_of_string palg)
            (bytes_of_hex pkey) (z_of_string seed)) (fun s -> "OK " ^ render_sess s)
   | ["v3setkeys"; sess; user; aalg; akey; palg; pkey; seed] ->
-    res (v3_set_keys (parse_sess sess) (bytes_of_hex user) (z_of_string aalg) (bytes_of_hex akey) (z_of_string palg)
-           (bytes_of_hex pkey) (z_of_string seed)) (fun s -> "OK " ^ render_sess s)
+    (* the socket after the call is printed whether the keys were accepted or refused *)
+    let (s', r) = v3_set_keys_st (parse_sess sess) (bytes_of_hex user) (z_of_string aalg) (bytes_of_hex akey) (z_of_string palg)
+        (bytes_of_hex pkey) (z_of_string seed) in
+    res r (fun _ -> "OK") ^ " " ^ render_sess s'
   | ["v3emit"; sess; spec; rndmsg] ->
     let (s, r) = v3_push_pdu (parse_sess sess) (build_pdu spec) (z_of_string rndmsg) in
     res r (fun d -> "OK " ^ hx d) ^ " " ^ render_sess s
